@@ -23,6 +23,11 @@ def plain_templates():
     for e in NUM + CODE + STR:
         t.append([e])
     t.append([31031, 31031, 2001])
+    # eight fields of one kind in a row: the relation between the subsets of a column rotates with the position (FM94.ClsOf),
+    # so every kind of column - equal, all different, equal-except-missing, stride 2 - occurs for every kind of field
+    t.append([1015, 1008, 1011, 25061, 1015, 1008, 1011, 25061])
+    t.append([12001, 11003, 7001, 10004, 13011, 12101, 1002, 5001])
+    t.append([2001, 1003, 2003, 20003, 2002, 8042, 31021, 8023])
     t.append([31000, 1001])                       # 1-bit numeric outside any replication
     t.append([1001, 2001, 1015, 12001, 8042, 11003])
     t.append([5001, 6001, 7001, 10004, 2153])
